@@ -268,10 +268,10 @@ theorem fledger_facts {h : Hist K} {L : List (K × K)} {B : List K} (hb : FLedge
     obtain ⟨sc, si, s1, sm, sw, smin, smax⟩ := ihs
     obtain ⟨tc, ti, t1, tm, tw, tmin, tmax⟩ := iht
     obtain ⟨m, hm, e⟩ := add_toR hok (isMinMax_none tmin tmax)
-    unfold Distogram.merge at hm
+    rw [merge_def] at hm
     obtain ⟨c2, i2, o2, p2, m2, w2, mn2, mx2⟩ := fold_facts t.bins B1 sc si s1 t1 smin smax hm
     have hcoh : Coherent h' := by
-      rw [add_def] at hok; unfold Distogram.merge at hok
+      rw [add_def] at hok; rw [merge_def] at hok
       obtain ⟨m', hm', hok⟩ := bind_eq_ok hok
       rw [hm] at hm'
       simp only [Except.ok.injEq] at hm'
@@ -354,7 +354,7 @@ theorem fhist_sim {h : Hist K} {s : RState K} {L : List (K × K)} {B : List K} (
     obtain ⟨_, _, t1, _, _, tmin, tmax⟩ := fledger_facts ft
     refine ⟨?_, Built.add bs bt, FLedger.add fs ft hok⟩
     obtain ⟨m, hm, e⟩ := add_toR hok (isMinMax_none tmin tmax)
-    unfold Distogram.merge at hm
+    rw [merge_def] at hm
     have etb : t.bins = u.bins := congrArg RState.bins et
     have em := fold_sim t.bins sc si s1 t1 hm (by rw [es, etb]; exact hnt)
     rw [e, em, es, etb]
